@@ -576,7 +576,11 @@ def run_cpp_wire(eng, rep, rule: str) -> None:
             if "?" in g:
                 rep.undecided(rule, "plugins/fcp_cpp/fcp_cpp/decoders.h", "%s::%s" % (key, side), g, "effect grammar has unresolved parts")
             else:
-                rep.check(g == w, rule, "plugins/fcp_cpp/fcp_cpp/decoders.h", "%s::%s" % (key, side), g, "= canonical %s" % w, "C++ %s performs [%s], canonical wire format is [%s]" % (side.lower(), g, w))
+                o_ = rep.check(g == w, rule, "plugins/fcp_cpp/fcp_cpp/decoders.h", "%s::%s" % (key, side), g, "= canonical %s" % w, "C++ %s performs [%s], canonical wire format is [%s]" % (side.lower(), g, w))
+                if g != w and "min(count, bytes left)" in g and g.replace("min(count, bytes left)", "count") == w:
+                    # the only difference is a decoded count clamped to the bytes that are left, read positively from the code
+                    # (the unit of the clamping function was taken from its body): new helpers do not make this undecided
+                    o_["construct_level"] = True
     rep.floor(rule, "C++ wrapper Encode/Decode grammars extracted", n, 12)
     buffer_rules(cc, rep, rule)
 
